@@ -9,17 +9,26 @@
 
   Theorems (every reachable state of every interleaving, any number of clients, any map of keys to store shards)
     * `C18_layerB_no_deadlock`            ¬ Quiescent b → some INTERNAL action is enabled for some oracle
+                                          (`C18_layerB_no_deadlock_of_inv`: for every state with the invariants)
+    * `quiescent_iff`                     `Quiescent b ↔ ∀ t, ¬ HasWork b t`
     * `C18_layerB_every_blocked_thread_has_an_enabled_path`
                                           a thread with work to do is enabled, or a chain of at most THREE `WaitsFor`
-                                          links leads from it to an enabled thread; `WaitsFor b` has no cycle
-    * `C18_layerB_waitsFor_sound`         `WaitsFor b t t'`: `t` is really blocked, `t'` has work, the rank goes down
+                                          links leads from it to an enabled thread; the chain never returns to it
+    * `C18_layerB_waitsFor_sound`         `WaitsFor b t t'`: `t` is really blocked (for every oracle), `t'` has work,
+                                          the rank goes strictly down
     * `C18_layerB_waitsFor_acyclic`       no cycle in `WaitsFor b`
     * `C18_layerB_idle_thread_waits_for_the_environment`
-    * `C18_layerB_get_enabled`, `C18_layerB_get_returns`   a `get` waits for nothing and returns within 3 own actions
-    * `C18_layerB_put_enabled_unless_full`, `C18_layerB_put_returns`, `C18_layerB_worker_makes_room`
-                                          a put returns within 4 own actions; its only wait is `cmd.send` on a full
-                                          queue with a live worker — who then has an enabled path, and whose `recv`
-                                          makes room
+                                          a thread without work is not enabled and waits for no thread of the cache
+    * `C18_layerB_get_enabled`, `C18_layerB_get_returns`
+                                          a `get` waits for nothing (in EVERY state) and returns within 3 own actions
+    * `C18_layerB_put_enabled_unless_full`, `C18_layerB_put_returns`, `C18_layerB_put_send_waits_for_a_live_worker`,
+      `C18_layerB_worker_makes_room`      a put returns within 4 own actions; its only wait is `cmd.send` on a full
+                                          queue with a live worker — who then has an enabled path of at most 2 links,
+                                          and whose next `recv` makes room for every sender
+    * witnesses: `C18_layerB_wait_chain_witness` (client at `cmd.send` → worker at `wu.space` → sweeper owning
+      `weight_used`, enabled), `C18_layerB_longest_wait_chain_witness` (… → sweeper → client keeping a `get_ref`
+      guard: three links), quiescent states, a `get` and a put that return as stated
+    * `C18_layerB_no_deadlock_needs_cmdCap`  with `cmdCap = 0` the statement is false of the model
 
   Hypotheses beyond the wording of the property (each is asserted by the crate's builder / a constant of the crate):
     * `seeds ≠ []`            the sketch has a row (the crate uses four): else the sketch's index panics
@@ -30,7 +39,12 @@
   The sweeper's tick (its action at `sweep.begin`) counts as EXTERNAL (a timer), like `issue` and `advance`: otherwise
   the statement would be trivially true whenever the sweeper is alive.
 
-  No counterexample to the global statement was found: it is a theorem.
+  No counterexample to the global statement was found: under these hypotheses it is a theorem.
+
+  Fairness: `get` needs weak fairness only (its action is enabled at every state of the call).  The `cmd.send` of a
+  put / delete / upsert is enabled after every `recv` of the worker but not continuously while other clients compete
+  for the room: it returns under strong fairness (or without competing senders) — the model, like a bounded channel,
+  does not order the waiting senders.
 -/
 import CachedProofs.LayerB.NoDeadlockLemmas
 
